@@ -30,6 +30,9 @@ func CopyMessage(out, in interface{}) error {
 	if dmIn, ok := pmIn.(*dynamic.Message); ok {
 		return copyDynamic(pmOut, dmIn)
 	}
+	if dmOut, ok := pmOut.(*dynamic.Message); ok {
+		return copyIntoDynamic(dmOut, pmIn)
+	}
 
 	pmOut.Reset()
 	// This will check that types are compatible and return an error if not.
@@ -63,6 +66,26 @@ func copyDynamic(out proto.Message, in *dynamic.Message) error {
 		return dmOut.Unmarshal(b)
 	}
 	return proto.Unmarshal(b, out)
+}
+
+// copyIntoDynamic copies a generated message into a dynamic one by way of its
+// wire form. Merging it in (dynamic.TryMerge) stores the source's byte slices
+// and nested messages in the dynamic message by reference, which matters when
+// the source is not a private copy: the response a unary handler returned is
+// handed to the caller's copy as is.
+func copyIntoDynamic(out *dynamic.Message, in proto.Message) error {
+	// same rule as dynamic.TryMerge: both must be the same message type
+	inName := proto.MessageName(in)
+	outName := out.GetMessageDescriptor().GetFullyQualifiedName()
+	if inName != outName {
+		return fmt.Errorf("given message has wrong type: %q; expecting %q", inName, outName)
+	}
+	b, err := proto.Marshal(in)
+	if err != nil {
+		return err
+	}
+	out.Reset()
+	return out.Unmarshal(b)
 }
 
 // CloneMessage returns a copy of the given value.
